@@ -405,9 +405,9 @@ func main() {
 		time.AfterFunc(40*time.Second, func() { pprof.StopCPUProfile(); f.Close(); os.Exit(3) })
 	}
 	initPool()
-	debug.SetGCPercent(300)
-	debug.SetMemoryLimit(3 << 30)
-	c := &ctx{run: run, classes: core.NewCounter(), seqs: core.NewCounter(), firstCase: map[string]map[string]interface{}{}, fairCap: 64, memoCap: 3000000}
+	debug.SetGCPercent(run.Pick(200, 100))
+	debug.SetMemoryLimit(5 << 29) // 2.5 GiB soft limit
+	c := &ctx{run: run, classes: core.NewCounter(), seqs: core.NewCounter(), firstCase: map[string]map[string]interface{}{}, fairCap: 64, memoCap: 1500000}
 	c.maxRound = run.Pick(3, 4)
 
 	addPowers := []int64{2}
@@ -508,6 +508,7 @@ func main() {
 		run.Notes = append(run.Notes, fmt.Sprintf("time cap of %v reached while expanding depth %d (histories of length %d): all histories of length <= %d are complete, longer ones only partly", budget, done, done+1, done))
 	}
 	execs := atomic.LoadInt64(&c.nBuilds) + atomic.LoadInt64(&s.futBuilds)
+	pprof.StopCPUProfile()
 	run.Finish(core.Coverage{
 		"states":                        len(s.seen),
 		"transitions":                   s.transitions,
